@@ -1088,7 +1088,7 @@ static CaseSpec encodeArg(int k)
     {
         case 0: c.mn = 0; c.mx = 1500; c.b = {gen(1, 6, 0)}; break;
         case 1: c.mn = 64; c.mx = 100; c.b = {gen(1, 5, 0), gen(1, 9, 1), gen(1, 30, 2)}; break;
-        case 2: c.mn = 0; c.mx = 40; c.b = {gen(1, 40, 0)}; break;                      // multi-frame, batch ends in a segment
+        case 2: c.mn = 0; c.mx = 40; c.b = {gen(1, 40, 0)}; c.api = 1; break;           // multi-frame, batch ends in a segment; through the single-packet overload
         case 3:   // type changes; the status packet that opens the second run has payload type BYTE 0 (raw type 0x0300: a message
                   // type without a payload kind - the frame header must announce 3 all the same)
             c.mn = 0; c.mx = 1500; c.b = {gen(1, 4, 0), gen(3, 5, 1), gen(1, 6, 2)};
@@ -1099,7 +1099,7 @@ static CaseSpec encodeArg(int k)
             c.b[2].flags = 0x0C;
             break;
         case 4: c.mn = 0; c.mx = 64; c.ver = 2; c.b = {gen(3, 11, 0)}; break;
-        case 5: c.mn = 64; c.mx = 100; c.b = {gen(1, 150, 0), gen(1, 7, 1)}; break;
+        case 5: c.mn = 64; c.mx = 100; c.b = {gen(1, 150, 0), gen(3, 7, 1)}; break;     // a type change directly behind the last segment of a segmented packet
         case 6: c.mn = 0; c.mx = 40; c.b = {gen(1, 33, 0), gen(1, 3, 1), gen(1, 4, 2)}; break;   // starts with a segmenting packet
         case 7: c.mn = 0; c.mx = 100; c.b = {gen(3, 8, 0), gen(3, 9, 1)}; break;                  // status only
         case 8: c.mn = 0; c.mx = 100; c.b = {gen(1, 8, 0), gen(1, 9, 1)}; break;                  // data only
@@ -1113,7 +1113,7 @@ static CaseSpec encodeArg(int k)
         case 13: c.mn = 0; c.mx = 100; c.b = {gen(0, 5, 0), gen(0, 6, 1)}; break;   // message type 0 ("undefined"): no type change opens the first frame
         case 12: c.mn = 0; c.mx = 1500; c.b = {gen(1, 16, 0), gen(3, 0, 1), gen(1, 16, 2)}; c.b[2].flags = 0x08; break;   // a zero-length payload between two type changes (emits no message)
         case 10: c.mn = 0; c.mx = 1500; c.ver = 2; c.b = {gen(1, 6, 0)}; break;       // E0 with another version
-        case 11: c.mn = 0; c.mx = 64; c.ver = 1; c.b = {gen(3, 11, 0)}; break;          // E4 with another version
+        case 11: c.mn = 0; c.mx = 64; c.ver = 1; c.b = {gen(3, 11, 0)}; c.api = 1; break;   // E4 with another version, through the single-packet overload
         default: c.mn = 30; c.mx = 48; c.b = {gen(0xFF, 25, 0), gen(1, 24, 1), gen(1, 2, 2)}; c.b[0].pt = 0; break;   // segmented vendor packet of raw type 0xFF00 first
     }
     c.junk = 1;   // the packets carry their own non-zero device / stream ids and counters: the encoder's configuration must win, also when it is 0
